@@ -538,4 +538,19 @@ theorem run_log2 {c : Cfg} (hg : c.Good) (h : List Ev) : ∀ (s : St), HistOKb c
     exact ih _ (fun x hx => hok x (List.mem_cons_of_mem _ hx))
       (step_inv2 hg.toBootGood s e (hok e List.mem_cons_self) hi) (step_log2 hg s e hi hl)
 
+/-! ### `create_time()` testing `BOOT_TIME is not None` (`createNoneTest = true`: /repo 29257b1, fixes/C02-boottime-zero)
+
+With that test the boot-time hypotheses are void: `BtOK true b` holds for every `b` (0 included) and `HistOK true` /
+`HistOKb true` put no restriction on clock steps.  Props/C01.lean and Props/C02.lean state their theorems with
+`HistOK true` / `HistOKb true` and no hypothesis on the initial boot time, and discharge the `createNoneTest`-indexed
+hypotheses of the lemmas with these three (fed by the obligation `cfg_none_test`). -/
+
+theorem BtOK.of_none_test {c : Cfg} (hn : c.createNoneTest = true) (b : Nat) : BtOK c.createNoneTest b := Or.inl hn
+
+theorem HistOK.of_none_test {c : Cfg} (hn : c.createNoneTest = true) {h : List Ev} (hh : HistOK true h) :
+    HistOK c.createNoneTest h := by rw [hn]; exact hh
+
+theorem HistOKb.of_none_test {c : Cfg} (hn : c.createNoneTest = true) {h : List Ev} (hh : HistOKb true h) :
+    HistOKb c.createNoneTest h := by rw [hn]; exact hh
+
 end Psutil.C01
